@@ -207,6 +207,10 @@ func Resolve(o Op, h Handles, m *Model) ROp {
 			if o.V == "altflags" && i%2 == 1 {
 				q.Flags = []string{`\Seen`}
 			}
+			// attributes that differ between the elements of one list (a whole statement batch may have none)
+			if (o.V == "headflags" && i != 0) || (o.V == "tailflags" && i != len(syms)-1) {
+				q.Flags = nil
+			}
 			r.Reqs = append(r.Reqs, q)
 		}
 	case "MailboxTranslateRemoteIDs":
@@ -436,6 +440,11 @@ func BigOps(n int, thorough bool) []Op {
 		{M: "RemoveMessagesFromMailbox", Mb: "A", Rng: X(n)},
 		{M: "SetMailboxMessagesDeletedFlag", Mb: "A", Rng: X(n), B: true},
 		{M: "CreateMessages", Rng: Z(n), F: []string{"kw", `\Seen`}},
+		{M: "CreateMessages", Rng: Z(n)},
+		{M: "CreateMessages", Rng: Z(n), F: []string{"kw"}, V: "headflags"},
+		{M: "CreateMessages", Rng: Z(n), F: []string{"kw"}, V: "tailflags"},
+		{M: "AddFlagToMessages", Rng: X(n), F: []string{`\Seen`}},      // every second message has it already
+		{M: "RemoveFlagFromMessages", Rng: X(n), F: []string{`\Seen`}}, // every second message does not have it
 		{M: "DeleteMessages", Rng: Y(n)},
 		{M: "AddFlagToMessages", Rng: X(n), F: []string{"added"}},
 		{M: "RemoveFlagFromMessages", Rng: X(n), F: []string{"kw"}},
@@ -447,9 +456,16 @@ func BigOps(n int, thorough bool) []Op {
 		{M: "AddPermFlagsToAllMailboxes", Cnt: n},
 	}
 	if n == 0 {
-		ops[8].Ms, ops[8].Rng = []string{}, nil
-		ops[10].V = "empty"
-		ops[11].F, ops[12].F = []string{}, []string{}
+		for i := range ops {
+			switch ops[i].M {
+			case "GetMessagesFlags":
+				ops[i].Ms, ops[i].Rng = []string{}, nil
+			case "MailboxTranslateRemoteIDs":
+				ops[i].V = "empty"
+			case "AddFlagsToAllMailboxes", "AddPermFlagsToAllMailboxes":
+				ops[i].F = []string{}
+			}
+		}
 	}
 	if thorough && n > 0 {
 		ops = append(ops,
@@ -459,7 +475,6 @@ func BigOps(n int, thorough bool) []Op {
 			Op{M: "DeleteMessages", Rng: &[2]int{2*L + 1 + 1, n}},
 			Op{M: "SetMailboxMessagesDeletedFlag", Mb: "A", Rng: &[2]int{1, n}, B: true},
 			Op{M: "GetMessagesFlags", Rng: Y(n)},
-			Op{M: "CreateMessages", Rng: Z(n)},
 		)
 	}
 	return ops
